@@ -53,7 +53,10 @@ func (a *Auth) Unpack(r io.Reader) error {
 		return codes.ErrProtocol
 	}
 	a.Properties = &Properties{}
-	return a.Properties.Unpack(bufr, AUTH)
+	if err := a.Properties.Unpack(bufr, AUTH); err != nil {
+		return err
+	}
+	return endOfPacket(bufr)
 }
 
 func NewAuthPacket(fh *FixHeader, r io.Reader) (*Auth, error) {
